@@ -214,6 +214,24 @@ pub fn genuine_messages(config: Config) -> std::collections::BTreeMap<usize, Vec
     out
 }
 
+/// Reference decoding of a client trigger message: a target count, that many entities, and at
+/// least the four bytes of the event behind them.
+fn well_formed_trigger(input: &[u8]) -> bool {
+    let mut pos = 0;
+    let Some(count) = read_varint(input, &mut pos) else { return false };
+    if count > input.len() as u64 {
+        return false;
+    }
+    let mut b = bevy_replicon::bytes::Bytes::copy_from_slice(&input[pos..]);
+    for _ in 0..count {
+        match guarded(|| bevy_replicon::shared::entity_serde::deserialize_entity(&mut b)) {
+            Ok(Ok(_)) => {}
+            _ => return false,
+        }
+    }
+    b.len() >= 4
+}
+
 /// Truncations, byte substitutions, insertions and a doubling of a genuine message.
 fn mutations_of(g: &[u8]) -> Vec<Vec<u8>> {
     let mut out: std::collections::BTreeSet<Vec<u8>> = Default::default();
@@ -406,10 +424,21 @@ pub fn worker(job_json: &str) -> i32 {
                     let _ = guarded(|| rig.sim.server.update());
                     res.frames += 1;
                     let good = rig.sim.clients[1].conn.map(|e| e.to_bits());
-                    let seen = crate::events::drain_observed_opt(&mut rig.sim.server)
-                        .iter()
-                        .filter(|o| o.from == good && o.n >= 200)
-                        .count();
+                    let attacker = rig.sim.clients[0].conn.map(|e| e.to_bits());
+                    let observed = crate::events::drain_observed_opt(&mut rig.sim.server);
+                    let seen = observed.iter().filter(|o| o.from == good && o.n >= 200).count();
+                    // A trigger message is `count, count x entity, event`: if it does not decode
+                    // under that layout, the server must discard it, not fire something else.
+                    let from_attacker = observed.iter().filter(|o| o.from == attacker && attacker.is_some()).count();
+                    if job.channel == 6 && from_attacker > 0 && !well_formed_trigger(&input) && res.bad.len() < 50 {
+                        res.outcomes.insert("malformed-accepted".into());
+                        res.bad.push(BadInput {
+                            oracle: "malformed-accepted".into(),
+                            input: hex(&input),
+                            detail: format!("this trigger message does not decode as `count, count x entity, event`, yet the server fired {from_attacker} trigger(s) for its sender"),
+                            site: "trigger-layout".into(),
+                        });
+                    }
                     if seen == 0 && res.bad.len() < 50 {
                         res.outcomes.insert("companion-lost".into());
                         res.bad.push(BadInput {
@@ -471,7 +500,30 @@ fn run_jobs(jobs: Vec<Job>) -> Result<Vec<(Job, Result<JobResult, String>)>, Mac
     let out: Vec<(Job, Result<JobResult, String>)> = jobs
         .into_par_iter()
         .map(|job| {
-            let o = Command::new(&exe).arg("c06-worker").arg(serde_json::to_string(&job).unwrap()).output();
+            // A worker that stops making progress (the server hangs on an input) is killed after a
+            // generous wall-clock limit; the journal names the input it was processing.
+            let limit = std::time::Duration::from_secs(if job.inputs.ends_with(":3") { 2400 } else { 60 });
+            let mut hung = false;
+            let o = (|| -> std::io::Result<std::process::Output> {
+                let mut child = Command::new(&exe)
+                    .arg("c06-worker")
+                    .arg(serde_json::to_string(&job).unwrap())
+                    .stdout(std::process::Stdio::piped())
+                    .stderr(std::process::Stdio::null())
+                    .spawn()?;
+                let t0 = std::time::Instant::now();
+                loop {
+                    if child.try_wait()?.is_some() {
+                        return child.wait_with_output();
+                    }
+                    if t0.elapsed() > limit {
+                        let _ = child.kill();
+                        hung = true;
+                        return child.wait_with_output();
+                    }
+                    std::thread::sleep(std::time::Duration::from_millis(20));
+                }
+            })();
             let r = match o {
                 Err(e) => Err(format!("spawn failed: {e}")),
                 Ok(o) => {
@@ -480,7 +532,11 @@ fn run_jobs(jobs: Vec<Job>) -> Result<Vec<(Job, Result<JobResult, String>)>, Mac
                         Some(j) if o.status.success() => serde_json::from_str::<JobResult>(j).map_err(|e| e.to_string()),
                         _ => {
                             let input = Journal::read(&job.journal).map(|b| hex(&b)).unwrap_or_default();
-                            Err(format!("ABORT {input} status {:?} stderr {}", o.status, String::from_utf8_lossy(&o.stderr).lines().last().unwrap_or("")))
+                            if hung {
+                                Err(format!("ABORT {input} the server did not finish processing this input within {} s (worker killed)", limit.as_secs()))
+                            } else {
+                                Err(format!("ABORT {input} status {:?}", o.status))
+                            }
                         }
                     }
                 }
@@ -492,9 +548,98 @@ fn run_jobs(jobs: Vec<Job>) -> Result<Vec<(Job, Result<JobResult, String>)>, Mac
     Ok(out)
 }
 
+/// Raw bytes written to the example backend's server socket by a peer that is not a replicon
+/// client: every frame header over the app's channel ids and boundary announced sizes (with nothing, one
+/// byte, or the full body behind it), and every 1- and 2-byte fragment of a header. The server
+/// app must not panic and must still accept and serve a well-behaved connection afterwards.
+fn backend_headers(out: &mut Outcome) -> Result<Vec<(String, String)>, MachineryError> {
+    use std::io::Write;
+    use bevy::prelude::*;
+    use bevy_replicon_example_backend::{ExampleClient, ExampleServer, RepliconExampleBackendPlugins};
+    let mut bad = Vec::new();
+    let mut cases: Vec<Vec<u8>> = Vec::new();
+    // (only ids of channels this app really has: handing a message on a channel that does not
+    // exist to `RepliconServer` is a contract violation of the backend, not client input)
+    for ch in [0u8, 1] {
+        for size in [0u16, 1, 2, 1199, 1200, 1201, 32767, 32768, 65532, 65533, 65534, 65535] {
+            let h = vec![ch, size.to_le_bytes()[0], size.to_le_bytes()[1]];
+            cases.push(h.clone());
+            let mut one = h.clone();
+            one.push(0xAA);
+            cases.push(one);
+            if size <= 2000 {
+                let mut full = h.clone();
+                full.extend(std::iter::repeat(0x55).take(size as usize));
+                cases.push(full);
+            }
+            cases.push(h[..1].to_vec());
+            cases.push(h[..2].to_vec());
+        }
+    }
+    cases.sort();
+    cases.dedup();
+    for case in &cases {
+        let r = guarded(|| -> Result<(), String> {
+            let mut server = App::new();
+            server.init_resource::<Time>().add_plugins((
+                RepliconPlugins.set(ServerPlugin { tick_policy: TickPolicy::EveryFrame, ..Default::default() }),
+                RepliconExampleBackendPlugins,
+            ));
+            server.finish();
+            server.cleanup();
+            let socket = ExampleServer::new(0).map_err(|e| format!("socket: {e}"))?;
+            let port = socket.local_addr().map_err(|e| format!("socket: {e}"))?.port();
+            server.insert_resource(socket);
+            let mut raw = std::net::TcpStream::connect((std::net::Ipv4Addr::LOCALHOST, port)).map_err(|e| format!("socket: {e}"))?;
+            raw.set_nodelay(true).ok();
+            for _ in 0..3 {
+                server.update();
+            }
+            raw.write_all(case).map_err(|e| format!("socket: {e}"))?;
+            for _ in 0..4 {
+                std::thread::sleep(std::time::Duration::from_micros(200));
+                server.update();
+            }
+            // a well-behaved client is still accepted
+            let mut client = App::new();
+            client.init_resource::<Time>().add_plugins((RepliconPlugins, RepliconExampleBackendPlugins));
+            client.finish();
+            client.cleanup();
+            client.insert_resource(ExampleClient::new(port).map_err(|e| format!("socket: {e}"))?);
+            for _ in 0..200 {
+                server.update();
+                client.update();
+                let n = {
+                    let w = server.world_mut();
+                    let mut q = w.query_filtered::<(), With<AuthorizedClient>>();
+                    q.iter(w).count()
+                };
+                if n >= 1 {
+                    return Ok(());
+                }
+                std::thread::sleep(std::time::Duration::from_micros(500));
+            }
+            Err("after these bytes from another peer a well-behaved client was not authorized within 200 frames".into())
+        });
+        out.evaluations += 1;
+        out.nontrivial += 1;
+        out.transitions += 8;
+        match r {
+            Ok(Ok(())) => {}
+            Ok(Err(e)) if e.starts_with("socket") => return Err(MachineryError(format!("loopback sockets unavailable: {e}"))),
+            Ok(Err(e)) => bad.push((hex(case), e)),
+            Err((msg, loc)) => bad.push((hex(case), format!("the server app panicked: {msg} ({})", short_loc(&loc)))),
+        }
+    }
+    out.reports.push(json!({"cell": "c06-backend-headers", "cases": cases.len(), "exhaustive_within_bound": true}));
+    eprintln!("  C06: {} raw header cases against the example backend's server socket", cases.len());
+    Ok(bad)
+}
+
 pub fn run(tier: Tier, _budget: f64, out: &mut Outcome) -> Result<(), MachineryError> {
     out.rule = RULE.into();
     let q = tier.quick();
+    let header_bad = backend_headers(out)?;
     let scratch = format!("{}/.target/c06", &check::verif_root());
     let _ = std::fs::create_dir_all(&scratch);
     let mut jobs = Vec::new();
@@ -527,6 +672,21 @@ pub fn run(tier: Tier, _budget: f64, out: &mut Outcome) -> Result<(), MachineryE
     let results = run_jobs(jobs)?;
     let findings = check::load_findings();
     let mut seen = BTreeSet::new();
+    out.violation_total += header_bad.len() as u64;
+    if let Some((input, detail)) = header_bad.first() {
+        let feats: BTreeSet<String> = ["site:backend-header".to_string()].into();
+        if let Some(k) = findings.findings.iter().find(|f| check::matches_known(f, "C06", "backend-header", &feats)) {
+            out.known_hits.push(format!("KNOWN-FINDING: property=C06 {}", k.what));
+        } else {
+            let dir = std::path::Path::new(&check::verif_root()).join("replays").join("C06");
+            let _ = std::fs::create_dir_all(&dir);
+            let path = dir.join(format!("{:016x}.json", crate::explore::hash_of(&("backend-header", input))));
+            let doc = json!({"property": "C06", "kind": "bytes", "backend_header": true, "input": input,
+                "violation": {"property": "C06", "oracle": "backend-header", "detail": detail, "features": feats}});
+            std::fs::write(&path, serde_json::to_string_pretty(&doc).unwrap()).unwrap();
+            out.new_violations.push(path);
+        }
+    }
     let mut outcomes: BTreeSet<String> = BTreeSet::new();
     let mut per_channel: Vec<serde_json::Value> = Vec::new();
     for (job, r) in results {
@@ -580,6 +740,23 @@ pub fn run(tier: Tier, _budget: f64, out: &mut Outcome) -> Result<(), MachineryE
 }
 
 pub fn replay(doc: &serde_json::Value) -> i32 {
+    if doc["backend_header"].as_bool().unwrap_or(false) {
+        let mut out = Outcome::new("C06", Tier::Quick, 1);
+        return match backend_headers(&mut out) {
+            Ok(bad) if bad.is_empty() => {
+                println!("replay passes: no violation");
+                0
+            }
+            Ok(bad) => {
+                println!("VIOLATION property=C06 replay=<file> oracle=backend-header :: bytes {} :: {}", bad[0].0, bad[0].1);
+                1
+            }
+            Err(e) => {
+                eprintln!("machinery error: {}", e.0);
+                2
+            }
+        };
+    }
     let job = Job {
         config: serde_json::from_value(doc["config"].clone()).unwrap(),
         sender: serde_json::from_value(doc["sender"].clone()).unwrap(),
